@@ -120,6 +120,20 @@ module Z =
     | Lt -> true
     | _ -> false
 
+  (** val geb : coq_Z -> coq_Z -> bool **)
+
+  let geb x y =
+    match compare x y with
+    | Lt -> false
+    | _ -> true
+
+  (** val gtb : coq_Z -> coq_Z -> bool **)
+
+  let gtb x y =
+    match compare x y with
+    | Gt -> true
+    | _ -> false
+
   (** val eqb : coq_Z -> coq_Z -> bool **)
 
   let eqb x y =
